@@ -103,17 +103,14 @@ theorem no_gaps_exact (R : Rules) (cfg : Cfg) (fuel : Nat) (prf : List Item) (re
   have ht := checkProof_trok h
   have hne : ∀ e ∈ res.trace, e.rule ≠ gapRule := by
     intro e he hr
-    have := (ht.1 e he)
-    have hnone := this.1.mpr hr
-    have := this.2.2 hnone
+    have := ((ht.1 e he).1 hr).2
     rw [hng] at this; simp at this
   refine ⟨?_, hne⟩
   rw [ht.2, gapsOf]
-  have : res.trace.filter (fun e => e.computed.isNone) = [] := by
+  have : res.trace.filter (fun e => e.rule == gapRule) = [] := by
     rw [List.filter_eq_nil_iff]
     intro e he hc
-    have hnone : e.computed = none := by simpa using hc
-    exact hne e he ((ht.1 e he).1.mp hnone)
+    exact hne e he (by simpa using hc)
   rw [this]; rfl
 
 /-- With `no_gaps` the derivations of `accepted_justified` have no unproved leaves at all. -/
@@ -136,18 +133,7 @@ items met during the run, in order, including those inside expansions. -/
 theorem gaps_reported_exact (R : Rules) (cfg : Cfg) (fuel : Nat) (prf : List Item) (res : Res)
     (h : checkProof R cfg fuel prf = .ok res) :
     res.gaps = (res.trace.filter (fun e => e.rule == gapRule)).map (·.th) := by
-  have ht := checkProof_trok h
-  rw [ht.2, gapsOf]
-  congr 1
-  apply List.filter_congr
-  intro e he
-  have := (ht.1 e he).1
-  by_cases hc : e.computed = none
-  · simp [hc, this.mp hc]
-  · have hr : e.rule ≠ gapRule := fun hr => hc (this.mpr hr)
-    cases hcomp : e.computed with
-    | none => exact absurd hcomp hc
-    | some r => simp [hr]
+  exact (checkProof_trok h).2
 
 example : ∃ res, checkProof (Toy.rules []) ⟨false, false, 0⟩ 5 exExp = .ok res ∧
     res.gaps = [⟨[], 1⟩] ∧ res.trace.length = 4 := by
@@ -167,22 +153,91 @@ example : ∃ res, checkProof (Toy.rules []) ⟨true, false, 0⟩ 5 exPrf = .ok 
 /- a statement stronger than the computed sequent is refused -/
 example : checkProof (Toy.rules []) ⟨true, false, 0⟩ 5 [axItem 0 [1] 2 (some ⟨[], 2⟩)] = .error (.check .mismatch) := rfl
 
+/-! ### `compute_only` and `check_level` -/
+
+/-- In every mode, `compute_only` included: each statement that became citable and the returned
+theorem are no stronger than what the rules compute from the statements nobody computed (`T`:
+placeholders and, under `compute_only` only, stated sequents taken on trust).  Nothing is claimed
+about the trusted statements themselves; without `compute_only` there are none (third part). -/
+theorem compute_only_computes (R : Rules) (cfg : Cfg) (fuel : Nat) (prf : List Item) (res : Res)
+    (h : checkProof R cfg fuel prf = .ok res) :
+    (∀ e ∈ res.trace, ∃ r, Justified R (fun g => ∃ e' ∈ res.trace, e'.computed = none ∧ e'.th = g) r ∧
+      canProve r e.th = true) ∧
+    (∀ s, res.th = some s → ∃ r, Justified R (fun g => ∃ e' ∈ res.trace, e'.computed = none ∧ e'.th = g) r ∧
+      canProve r s = true) ∧
+    (∀ e ∈ res.trace, e.computed = none → e.rule = gapRule ∨ cfg.computeOnly = true) := by
+  have P := checkProof_post_gen h (fun g => ∃ e' ∈ res.trace, e'.computed = none ∧ e'.th = g)
+    (fun e he hn => ⟨e, he, hn, rfl⟩)
+  exact ⟨P.1, P.2.2, fun e he hn => ((checkProof_trok h).1 e he).2.2 hn⟩
+
+/- compute_only: line 0 states `⊢ 7` although its rule yields `1 ⊢ 2`; it is trusted, line 1 computes from it -/
+example : ∃ res, checkProof (Toy.rules []) ⟨true, true, 0⟩ 5
+      [axItem 0 [1] 2 (some ⟨[], 7⟩), ⟨[1], "verif_weaken", .num 3, [[0]], none, none⟩] = .ok res ∧
+    res.th = some ⟨[3], 7⟩ ∧ res.trace.map (·.computed) = [none, some ⟨[3], 7⟩] := by
+  refine ⟨_, rfl, ?_, ?_⟩ <;> rfl
+
+/-- The checker evaluates a macro only when its level is at most `check_level`, expands it
+otherwise, and applies a primitive rule only to an argument of the declared kind: checking against
+the rule layer with all other calls disabled (`Rules.restrict`) is the same computation.  So the
+derivations of `accepted_justified` use `eval` only for macros of level ≤ `check_level`. -/
+theorem check_level_trusts_only_leq_level (R : Rules) (cfg : Cfg) (fuel : Nat) (prf : List Item) :
+    checkProof (R.restrict cfg.checkLevel) cfg fuel prf = checkProof R cfg fuel prf ∧
+    (∀ r a ps s, (R.restrict cfg.checkLevel).eval r a ps = .ok s →
+      ∃ l, R.kind r = .macro l ∧ levelOk l cfg.checkLevel = true ∧ R.eval r a ps = .ok s) ∧
+    (∀ r a ps s, (R.restrict cfg.checkLevel).prim r a ps = .ok s →
+      R.kind r = .prim ∧ R.primSig r a = true ∧ R.prim r a ps = .ok s) :=
+  ⟨checkProof_restrict R cfg fuel prf, fun _ _ _ _ h => restrict_eval_ok h, fun _ _ _ _ h => restrict_prim_ok h⟩
+
+/- at level 0 the level-1 macro of `exExp` is expanded (4 events), at level 1 it is evaluated (1 event) -/
+example : (∃ res, checkProof (Toy.rules []) ⟨false, false, 0⟩ 5 exExp = .ok res ∧ res.trace.length = 4) ∧
+    (∃ res, checkProof (Toy.rules []) ⟨false, false, 1⟩ 5 exExp = .ok res ∧ res.trace.length = 1) ∧
+    ((Toy.rules []).restrict 0).eval "verif_exp" (.list [.list [.list [], .num 0], .list []]) [] = .error (.other 0) := by
+  refine ⟨⟨_, rfl, rfl⟩, ⟨_, rfl, rfl⟩, rfl⟩
+
 /-! ### `checked_extend` -/
 
-/-- Every theorem in the table after `checked_extend` was there before, or is reported as an axiom,
-or was offered with a proof that `check_proof` accepts with `no_gaps=True` (in the theory as it was
-at that moment), reports no gap for, and whose final sequent `can_prove`s the stated theorem — which
-therefore has a derivation without unproved leaves. -/
-theorem extend_admits_only_proved (R : List (String × Seq) → Rules) (fuel : Nat) :
+/-- One extension offered with a proof and installed without error: the proof is accepted by
+`check_proof` with `no_gaps=True` in the theory as it is, reports no gap, its final sequent
+`can_prove`s the stated theorem (which so has a derivation without unproved leaves), the theorem is
+what the table now holds under that name, and nothing is added to the axiom report. -/
+theorem extend_admits_only_proved (R : List (String × Seq) → Rules) (fuel : Nat) (st st' : ExtState)
+    (name : String) (th : Seq) (prf : List Item)
+    (h : checkedExtend R fuel st [.theorem name th (some prf)] = (st', none)) :
+    ∃ res r, checkProof (R st.theorems) ⟨true, false, 0⟩ fuel prf = .ok res ∧ res.gaps = [] ∧
+      res.th = some r ∧ canProve r th = true ∧
+      (∃ q, Justified (R st.theorems) (fun _ => False) q ∧ canProve q th = true) ∧
+      lookupThm st'.theorems name = some th ∧ st'.axioms = st.axioms := by
+  simp only [checkedExtend] at h
+  split at h
+  · simp at h
+  · rename_i res hres
+    split at h
+    · simp at h
+    · rename_i r hr
+      split at h
+      · rename_i hcp
+        simp only [Prod.mk.injEq, and_true] at h
+        subst h
+        have hg := (no_gaps_exact _ _ _ _ _ rfl hres).1
+        obtain ⟨q, hq, hqr⟩ := (no_gaps_justified _ _ _ _ _ rfl rfl hres).2 r hr
+        exact ⟨res, r, hres, hg, hr, hcp, ⟨q, hq, canProve_trans hqr hcp⟩, lookupThm_upsert_self _ _ _, rfl⟩
+      · simp at h
+
+/-- Invariant of `checked_extend` over a whole list of extensions, names may repeat and overwrite
+each other: whatever the table holds under a name afterwards was held under that name before, or is
+reported as an axiom, or comes from an extension `pre ++ [Theorem(name, th, prf)] ++ post` of the
+list whose proof `check_proof` accepts with `no_gaps=True` in the table reached after `pre`,
+without gaps, concluding `th` — so `th` has a derivation without unproved leaves over that table. -/
+theorem extend_list_admits_only_proved (R : List (String × Seq) → Rules) (fuel : Nat) :
     ∀ (exts : List Ext) (st st' : ExtState) (err : Option Err),
       checkedExtend R fuel st exts = (st', err) →
-      ∀ name th, (name, th) ∈ st'.theorems →
-        (name, th) ∈ st.theorems ∨ (name, th) ∈ st'.axioms ∨
-        ∃ prf thms res r, Ext.theorem name th (some prf) ∈ exts ∧
-          st.theorems <+: thms ∧ thms <+: st'.theorems ∧
-          checkProof (R thms) ⟨true, false, 0⟩ fuel prf = .ok res ∧ res.gaps = [] ∧
+      ∀ name th, lookupThm st'.theorems name = some th →
+        lookupThm st.theorems name = some th ∨ (name, th) ∈ st'.axioms ∨
+        ∃ pre post prf mid res r, exts = pre ++ Ext.theorem name th (some prf) :: post ∧
+          checkedExtend R fuel st pre = (mid, none) ∧
+          checkProof (R mid.theorems) ⟨true, false, 0⟩ fuel prf = .ok res ∧ res.gaps = [] ∧
           res.th = some r ∧ canProve r th = true ∧
-          ∃ q, Justified (R thms) (fun _ => False) q ∧ canProve q th = true := by
+          ∃ q, Justified (R mid.theorems) (fun _ => False) q ∧ canProve q th = true := by
   intro exts
   induction exts with
   | nil =>
@@ -191,40 +246,47 @@ theorem extend_admits_only_proved (R : List (String × Seq) → Rules) (fuel : N
     rw [← h.1] at hm; exact Or.inl hm
   | cons e rest ih =>
     intro st st' err h name th hm
+    -- from the invariant of `rest` started in the state after `e`
     have lift : ∀ st1 : ExtState, checkedExtend R fuel st1 rest = (st', err) →
-        st.theorems <+: st1.theorems →
-        ((name, th) ∈ st1.theorems → (name, th) ∈ st.theorems ∨ (name, th) ∈ st'.axioms ∨
-          ∃ prf thms res r, Ext.theorem name th (some prf) ∈ e :: rest ∧
-          st.theorems <+: thms ∧ thms <+: st'.theorems ∧
-          checkProof (R thms) ⟨true, false, 0⟩ fuel prf = .ok res ∧ res.gaps = [] ∧
-          res.th = some r ∧ canProve r th = true ∧
-          ∃ q, Justified (R thms) (fun _ => False) q ∧ canProve q th = true) →
-        (name, th) ∈ st.theorems ∨ (name, th) ∈ st'.axioms ∨
-          ∃ prf thms res r, Ext.theorem name th (some prf) ∈ e :: rest ∧
-          st.theorems <+: thms ∧ thms <+: st'.theorems ∧
-          checkProof (R thms) ⟨true, false, 0⟩ fuel prf = .ok res ∧ res.gaps = [] ∧
-          res.th = some r ∧ canProve r th = true ∧
-          ∃ q, Justified (R thms) (fun _ => False) q ∧ canProve q th = true := by
-      intro st1 h1 hpre hin
-      rcases ih st1 st' err h1 name th hm with h2 | h2 | ⟨prf, thms, res, r, hmem, hp1, hp2, hrest⟩
+        (∀ pre mid, checkedExtend R fuel st1 pre = (mid, none) →
+          checkedExtend R fuel st (e :: pre) = (mid, none)) →
+        (lookupThm st1.theorems name = some th →
+          lookupThm st.theorems name = some th ∨ (name, th) ∈ st'.axioms ∨
+          ∃ pre post prf mid res r, e :: rest = pre ++ Ext.theorem name th (some prf) :: post ∧
+            checkedExtend R fuel st pre = (mid, none) ∧
+            checkProof (R mid.theorems) ⟨true, false, 0⟩ fuel prf = .ok res ∧ res.gaps = [] ∧
+            res.th = some r ∧ canProve r th = true ∧
+            ∃ q, Justified (R mid.theorems) (fun _ => False) q ∧ canProve q th = true) →
+        lookupThm st.theorems name = some th ∨ (name, th) ∈ st'.axioms ∨
+          ∃ pre post prf mid res r, e :: rest = pre ++ Ext.theorem name th (some prf) :: post ∧
+            checkedExtend R fuel st pre = (mid, none) ∧
+            checkProof (R mid.theorems) ⟨true, false, 0⟩ fuel prf = .ok res ∧ res.gaps = [] ∧
+            res.th = some r ∧ canProve r th = true ∧
+            ∃ q, Justified (R mid.theorems) (fun _ => False) q ∧ canProve q th = true := by
+      intro st1 h1 hstep hin
+      rcases ih st1 st' err h1 name th hm with h2 | h2 | ⟨pre, post, prf, mid, res, r, hsplit, hpre, hrest⟩
       · exact hin h2
       · exact Or.inr (Or.inl h2)
-      · exact Or.inr (Or.inr ⟨prf, thms, res, r, List.mem_cons_of_mem _ hmem, hpre.trans hp1, hp2, hrest⟩)
+      · exact Or.inr (Or.inr ⟨e :: pre, post, prf, mid, res, r, by rw [hsplit]; rfl, hstep pre mid hpre, hrest⟩)
     cases e with
     | other =>
       simp only [checkedExtend] at h
-      exact lift st h (List.prefix_refl _) (fun hin => Or.inl hin)
+      exact lift st h (fun pre mid hp => by simpa [checkedExtend] using hp) (fun hin => Or.inl hin)
     | «theorem» n t prf =>
       cases prf with
       | none =>
         simp only [checkedExtend] at h
-        refine lift _ h (List.prefix_append _ _) ?_
+        refine lift _ h (fun pre mid hp => by simpa [checkedExtend] using hp) ?_
         intro hin
-        rcases List.mem_append.mp hin with hin | hin
-        · exact Or.inl hin
-        · refine Or.inr (Or.inl ?_)
-          have hax := (checkedExtend_prefix R fuel rest _ st' err h).2
-          exact hax.subset (List.mem_append_right _ hin)
+        by_cases hn : name = n
+        · subst hn
+          rw [lookupThm_upsert_self] at hin
+          simp only [Option.some.injEq] at hin
+          subst hin
+          refine Or.inr (Or.inl ?_)
+          exact (checkedExtend_axioms_prefix R fuel rest _ st' err h).subset (List.mem_append_right _ (by simp))
+        · rw [lookupThm_upsert_ne _ _ _ hn] at hin
+          exact Or.inl hin
       | some p =>
         simp only [checkedExtend] at h
         split at h
@@ -235,20 +297,26 @@ theorem extend_admits_only_proved (R : List (String × Seq) → Rules) (fuel : N
           · rename_i r hr
             split at h
             · rename_i hcp
-              refine lift _ h (List.prefix_append _ _) ?_
+              refine lift _ h (fun pre mid hp => by simpa [checkedExtend, hres, hr, hcp] using hp) ?_
               intro hin
-              rcases List.mem_append.mp hin with hin | hin
-              · exact Or.inl hin
-              · simp only [List.mem_singleton, Prod.mk.injEq] at hin
-                obtain ⟨rfl, rfl⟩ := hin
+              by_cases hn : name = n
+              · subst hn
+                rw [lookupThm_upsert_self] at hin
+                simp only [Option.some.injEq] at hin
+                subst hin
                 have hg := (no_gaps_exact _ _ _ _ _ rfl hres).1
-                have hj := (no_gaps_justified _ _ _ _ _ rfl rfl hres).2 r hr
-                have hpre := (checkedExtend_prefix R fuel rest _ st' err h).1
-                refine Or.inr (Or.inr ⟨p, st.theorems, res, r, List.mem_cons_self, List.prefix_refl _,
-                  (List.prefix_append _ _).trans hpre, hres, hg, hr, hcp, ?_⟩)
-                obtain ⟨q, hq, hqr⟩ := hj
-                exact ⟨q, hq, canProve_trans hqr hcp⟩
+                obtain ⟨q, hq, hqr⟩ := (no_gaps_justified _ _ _ _ _ rfl rfl hres).2 r hr
+                exact Or.inr (Or.inr ⟨[], rest, p, st, res, r, rfl, rfl, hres, hg, hr, hcp,
+                  q, hq, canProve_trans hqr hcp⟩)
+              · rw [lookupThm_upsert_ne _ _ _ hn] at hin
+                exact Or.inl hin
             · simp only [Prod.mk.injEq] at h; rw [← h.1] at hm; exact Or.inl hm
+
+/- a name given twice: the second statement replaces the first, both axioms are reported; a proof by
+`theorem a` offered afterwards for the OLD statement is refused -/
+example : (checkedExtend Toy.rules 5 ⟨[], []⟩ [.theorem "a" ⟨[], 0⟩ none, .theorem "a" ⟨[], 1⟩ none,
+      .theorem "c" ⟨[], 0⟩ (some [⟨[0], "theorem", .str "a", [], none, none⟩])])
+    = (⟨[("a", ⟨[], 1⟩)], [("a", ⟨[], 0⟩), ("a", ⟨[], 1⟩)]⟩, some (.check .notConclude)) := rfl
 
 /- a proof of `⊢ 1` offered for `⊢ 0` is refused; the right proof is admitted and is not an axiom -/
 example : (checkedExtend Toy.rules 5 ⟨[], []⟩ [.theorem "bogus" ⟨[], 0⟩ (some [axItem 0 [] 1 none])]).2
